@@ -324,7 +324,7 @@ pub struct BadPt {
     pub which: usize,
 }
 pub struct Invalid;
-const BAD: [&str; 5] = ["one-point", "no-points", "ys-shorter", "ys-longer", "decreasing-knots"];
+const BAD: [&str; 9] = ["one-point", "no-points", "ys-shorter", "ys-longer", "decreasing-knots", "two-knots-decreasing", "three-knots-last-decreasing", "three-knots-first-decreasing", "five-knots-last-decreasing"];
 impl Check for Invalid {
     type P = BadPt;
     fn name(&self) -> &'static str {
@@ -349,7 +349,11 @@ impl Check for Invalid {
             1 => (vec![], vec![]),
             2 => (vec![0.0, 1.0, 2.0], vec![1.0, 2.0]),
             3 => (vec![0.0, 1.0, 2.0], vec![1.0, 2.0, 3.0, 4.0]),
-            _ => (vec![0.0, 2.0, 1.0, 3.0], vec![1.0, 2.0, 3.0, 4.0]),
+            4 => (vec![0.0, 2.0, 1.0, 3.0], vec![1.0, 2.0, 3.0, 4.0]),
+            5 => (vec![1.0, 0.0], vec![1.0, 2.0]),
+            6 => (vec![0.0, 1.0, 0.5], vec![1.0, 2.0, 3.0]),
+            7 => (vec![1.0, 0.0, 2.0], vec![1.0, 2.0, 3.0]),
+            _ => (vec![0.0, 1.0, 2.0, 3.0, 2.5], vec![1.0, 2.0, 3.0, 4.0, 5.0]),
         };
         let res = vcore::guard(|| if p.clamped { spline_clamped::<f64>(&xs, &ys, (0.0, 0.0), 1e-10).map(|_| ()) } else { spline_free::<f64>(&xs, &ys, 1e-10).map(|_| ()) });
         if !matches!(res, Ok(Err(_))) {
